@@ -134,7 +134,7 @@ func (fr *Frame) staticCall(callee *ssa.Function, bindings []Val, args []Val, rt
 		if fr.depth < maxInlineDepth && !fr.onStack(callee) && fr.inlineSize(callee) {
 			return fr.inline(callee, bindings, args, rt)
 		}
-		if ct := fr.contractFor(callee); ct != nil && len(bindings) == len(callee.FreeVars) && allFinalCaptures(callee) {
+		if ct := fr.contractFor(callee); ct != nil && len(bindings) == len(callee.FreeVars) && allPointerCaptures(callee) {
 			// a closure with its own contract that is too large to run inline: its contract is
 			// applied, the captured (effectively final) variables denoting their current contents
 			names := paramNames(callee)
@@ -142,9 +142,16 @@ func (fr *Frame) staticCall(callee *ssa.Function, bindings []Val, args []Val, rt
 				names = ct.Params
 			}
 			all := append([]Val{}, args...)
+			refs := map[string]refBinding{}
 			for i, fv := range callee.FreeVars {
 				pt, ok := fv.Type().Underlying().(*types.Pointer)
 				if !ok {
+					continue
+				}
+				if !finalCapture(callee, i) {
+					// a captured variable the closure (or somebody else) assigns: the name denotes the cell, read in
+					// the pre-state by old(...) and in the post-state otherwise; the call havocs the cell
+					refs[fv.Name()] = refBinding{ptr: bindings[i], elem: pt.Elem()}
 					continue
 				}
 				lv := fr.loadPtr(fr.cur.heap, bindings[i], pt.Elem())
@@ -156,7 +163,10 @@ func (fr *Frame) staticCall(callee *ssa.Function, bindings []Val, args []Val, rt
 				all = append(all, lv)
 			}
 			vc.note("call of the closure " + funcKey(callee) + ": its own contract applied (captured variables bound to their current values)")
-			return fr.applyContract(ct, callee.Signature, names, all, rt, pos, funcKey(callee))
+			fr.callRefs = refs
+			r := fr.applyContract(ct, callee.Signature, names, all, rt, pos, funcKey(callee))
+			fr.callRefs = nil
+			return r
 		}
 		vc.note("call of " + funcKey(callee) + " (no contract, not inlined): havoc of its syntactic may-modify set")
 		ms := vc.modSet(callee, map[*ssa.Function]bool{})
@@ -428,6 +438,7 @@ func (fr *Frame) applyContract(ct *Contract, sig *types.Signature, names []strin
 		vc.note("assumed contract used: " + calleeKey)
 	}
 	env := &Env{vc: vc, vars: map[string]Val{}, heap: fr.cur.heap, old: fr.cur.heap, now: fr.cur.now, pkg: fr.contractPkg(ct), what: "contract of " + calleeKey + " at " + fr.pos(pos).String(), reach: fr.curR}
+	env.refs, env.refFr = fr.callRefs, fr
 	for i, n := range names {
 		if i < len(args) {
 			env.vars[n] = args[i]
@@ -465,6 +476,9 @@ func (fr *Frame) applyContract(ct *Contract, sig *types.Signature, names []strin
 		// time first: objects handed back by the callee may have been allocated during the call
 		fr.bumpNow()
 		fr.cur.heap = fr.havocModifies(ct, env, calleeKey)
+		for n, rb := range fr.callRefs {
+			fr.cur.heap = fr.storePtr(fr.cur.heap, rb.ptr, rb.elem, fr.typed(vc.freshVal("cap."+n, rb.elem)))
+		}
 	}
 	res := vc.freshVal("ret."+sanitize(calleeKey), rt)
 	if ct.Pure {
@@ -475,6 +489,7 @@ func (fr *Frame) applyContract(ct *Contract, sig *types.Signature, names []strin
 	for k, v := range env.vars {
 		post.vars[k] = v
 	}
+	post.refs, post.refFr = env.refs, fr
 	bindResults(vc, post, sig, ct.Results, res)
 	var frames []frameReq
 	post.frames = &frames
@@ -730,6 +745,21 @@ func storedIn(al *ssa.Alloc, li *loopInfo) bool {
 		}
 	}
 	return li.blocks[al.Block()]
+}
+
+// refBinding: a captured variable bound by reference at a call site of a closure's contract.
+type refBinding struct {
+	ptr  Val
+	elem types.Type
+}
+
+func allPointerCaptures(fn *ssa.Function) bool {
+	for _, fv := range fn.FreeVars {
+		if _, ok := fv.Type().Underlying().(*types.Pointer); !ok {
+			return false
+		}
+	}
+	return true
 }
 
 func allFinalCaptures(fn *ssa.Function) bool {
